@@ -977,6 +977,24 @@ class Interp:
             else:
                 raise NotDerivable('unsupported terminator %s' % k, t.get('span'))
 
+    def fork_values(self, fr, t, pth, values, label):
+        """The call `t` may return any of `values` (an over-approximation decided by the transfer function):
+        continue this path with the first and fork one path per further value."""
+        if self._fork_ctx is None or t['target'] is None or not values:
+            return False
+        work, _results = self._fork_ctx
+        base_labels, base_events = list(pth.labels), list(pth.events)
+        for k, v in list(enumerate(values))[1:]:
+            nf = self._clone_frame(fr)
+            nf.storev(t['dest'], v)
+            np_ = Path()
+            np_.labels = base_labels + [(label, k)]
+            np_.events = list(base_events)
+            work.append((nf, t['target'], np_))
+        pth.labels = base_labels + [(label, 0)]
+        fr.storev(t['dest'], values[0])
+        return True
+
     def _refine(self, fr, t, dv, v):
         """Refine an Option's tag along a forked discriminant edge."""
         if isinstance(dv, tuple) and dv[0] == 'discr' and v in (0, 1):
